@@ -104,6 +104,9 @@ func Main(id string, level string, run func(*Ctx) error) {
 		c.Root = "/verif"
 	}
 	c.Repo = "/repo"
+	if r := os.Getenv("VERIF_REPO"); r != "" {
+		c.Repo = r // development aid: run the checks against a scratch tree (bin/check-against)
+	}
 	c.Tier = "quick"
 	args := os.Args[1:]
 	for i := 0; i < len(args); i++ {
